@@ -539,9 +539,10 @@ func (s *SliceSDF2) BoundingBox() Box2 {
 
 // UnionSDF2 is a union of multiple SDF2 objects.
 type UnionSDF2 struct {
-	sdf []SDF2
-	min MinFunc
-	bb  Box2
+	sdf   []SDF2
+	min   MinFunc
+	bb    Box2
+	blend bool // a blending minimum function has been installed
 }
 
 // Union2D returns the union of multiple SDF2 objects.
@@ -576,6 +577,12 @@ func Union2D(sdf ...SDF2) SDF2 {
 
 // Evaluate returns the minimum distance to the SDF2 union.
 func (s *UnionSDF2) Evaluate(p v2.Vec) float64 {
+
+	// A blending minimum adds material between the operands: an operand
+	// that is not the nearest still contributes, so nothing can be pruned.
+	if s.blend {
+		return s.EvaluateSlow(p)
+	}
 
 	// work out the min/max distance for every bounding box
 	vs := make([]Interval, len(s.sdf))
@@ -625,6 +632,7 @@ func (s *UnionSDF2) EvaluateSlow(p v2.Vec) float64 {
 // SetMin sets the minimum function to control SDF2 blending.
 func (s *UnionSDF2) SetMin(min MinFunc) {
 	s.min = min
+	s.blend = true
 }
 
 // BoundingBox returns the bounding box of an SDF2 union.
